@@ -88,7 +88,7 @@ PLANS = {
     "C08": dict(cases=step_cases(["deps", "place"], FULL),
                 l1=l1(dict(family="abs", invariants=["Inv_C08"]))),
     "C10": dict(cases=step_cases(["abs"], FULL),
-                l1=l1(dict(family="abs", invariants=["Inv_C10"], properties=["Prop_C10"]))),
+                l1=l1(dict(family="abs", invariants=["Inv_C10", "Inv_C10H"], properties=["Prop_C10"]))),
     "C11": dict(cases=both(sort_cases(), step_cases(["alloc"], FULL, nq=400, rq=300)),
                 l1=l1(dict(family="alloc", properties=["Prop_C11"]))),
     "C12": dict(cases=step_cases(["pert"], dict(facilities=False, components=False, kinds=["FS"])),
@@ -144,3 +144,211 @@ def samples(prop, recs, n=2):
         out.append({"cfg": c["cfg"], "ret": r.get("ret"),
                     "task_state_log": r["final"]["lg"]["ts"], "events": len(r.get("ev", []))})
     return out
+
+
+# =========================================================================================
+# history cases (C08 C09 C10 C15 C16 C17 C18)
+# =========================================================================================
+import itertools
+import random as _random
+
+PHASES = ["init", "finished", "unplaced", "ready", "updated", "presence", "alloc_task", "allocated",
+          "started", "cost", "performed", "recorded", "returned"]
+
+
+def _hist(cfg, tag, ops, plain=False):
+    c = dict(cfg)
+    c["id"] = cfg["id"] + "#" + tag
+    return {"kind": "history", "cfg": c, "ops": ops, "plain": plain}
+
+
+def _cmp(op, ref, prop, what="all"):
+    op = dict(op)
+    op.update(cmp=ref, cmpProp=prop, cmpWhat=what)
+    return op
+
+
+def _saved_format_only(cfg):
+    """Models whose behaviour-relevant settings are all part of the JSON format.  Since the fix
+    of D11 (rules, main workplace, conveyor links are saved) that is every model of the families."""
+    return True
+
+
+def _flat_single(cfg):
+    n = {}
+    for t in cfg["tasks"]:
+        if t["comp"]:
+            n[t["comp"]] = n.get(t["comp"], 0) + 1
+    return all(v <= 1 for v in n.values()) and not any(c["children"] for c in cfg["comps"])
+
+
+def _pool(tier, seed, fams, nq, nt, rand_kw=None, rq=60, rt=600, prefix="H"):
+    out = []
+    for f in fams:
+        out += _fam(f, tier, nq, nt, seed)
+    if rand_kw is not None:
+        out += _rand(tier, seed, rq, rt, prefix, **rand_kw)
+    return out
+
+
+def c09_cases(tier, seed):
+    rng = _random.Random(seed + 9)
+    out = []
+    for cfg in _pool(tier, seed, ["deps", "abs"], 120, 1500, dict(components=False, facilities=False), 80, 800):
+        n = len(cfg["tasks"])
+        perms = list(itertools.permutations(range(n)))
+        if len(perms) > 6:
+            perms = rng.sample(perms, 6 if tier == "quick" else 24)
+        ops = [{"op": "simulate"}]
+        for p in perms:
+            ops += [{"op": "rebuild"}, _cmp({"op": "simulate", "ranks": list(p), "light": True}, 1, "C09", "lg")]
+        ops += [_cmp({"op": "simulate", "light": True}, 1, "C09", "lg")]          # simply call simulate again
+        ops += [{"op": "backward", "light": True}, _cmp({"op": "simulate", "light": True}, 1, "C09", "lg")]
+        ops += [{"op": "rebuild", "plain": True}, _cmp({"op": "simulate", "light": True}, 1, "C09", "lg")]
+        out.append(_hist(cfg, "c09", ops))
+    return out
+
+
+def c15_cases(tier, seed):
+    out = []
+    pool = _pool(tier, seed, ["deps", "alloc", "placeflat"], 40, 400, dict(), 60, 600)
+    for cfg in pool:
+        ks = range(0, 9 if tier == "quick" else 14)
+        ops = [{"op": "simulate", "light": True}]
+        for k in ks:
+            ops += [{"op": "rebuild"}, {"op": "simulate", "opts": {"maxTime": k}, "light": True},
+                    _cmp({"op": "simulate", "initState": False, "initLog": False, "light": True}, 1, "C15", "lg")]
+        out.append(_hist(cfg, "c15", ops))
+        if _saved_format_only(cfg):
+            ops = [{"op": "simulate", "light": True}]
+            for k in ks:
+                ops += [{"op": "rebuild", "plain": True}, {"op": "simulate", "opts": {"maxTime": k}, "light": True},
+                        {"op": "saveload"},
+                        _cmp({"op": "simulate", "initState": False, "initLog": False, "light": True}, 1, "C15", "lg")]
+            out.append(_hist(cfg, "c15json", ops, plain=True))
+    return out
+
+
+def c17_cases(tier, seed):
+    rng = _random.Random(seed + 17)
+    out = []
+    pool = _pool(tier, seed, ["deps", "placeflat"], 50, 500, dict(nested=False, multi_task_comp=False), 60, 600)
+    for cfg in pool:
+        ops = [{"op": "simulate", "light": True}]
+        combos = [(d, r) for d in (False, True) for r in (False, True)]
+        for d, r in combos:
+            ops += [{"op": "rebuild"}, {"op": "backward", "due": d, "reverse": r},
+                    _cmp({"op": "simulate", "light": True}, 1, "C17")]
+        faults = [(ph, t) for ph in PHASES for t in range(0, 4)]
+        faults = rng.sample(faults, 6) if tier == "quick" else faults
+        for ph, t in faults:
+            d, r = rng.choice(combos)
+            ops += [{"op": "rebuild"}, {"op": "backward", "due": d, "reverse": r, "abortAt": [ph, t], "light": True},
+                    _cmp({"op": "simulate", "light": True}, 1, "C17")]
+        out.append(_hist(cfg, "c17", ops))
+    return out
+
+
+def c18_cases(tier, seed):
+    rng = _random.Random(seed + 18)
+    out = []
+    pool = _pool(tier, seed, ["abs", "placeflat"], 60, 600, dict(), 80, 800)
+    for cfg in pool:
+        ops = [{"op": "simulate", "light": True}]
+        # arbitrary edit sequences on a result that may contain absence steps
+        for _ in range(3):
+            if rng.random() < 0.4:
+                ops.append({"op": "remove_absence"})
+            else:
+                L = sorted(set(rng.sample(range(0, 14), rng.randint(1, 3))))
+                if rng.random() < 0.4:
+                    # a step that is already an absence step of the run, or one beyond the end
+                    present = [a for a in cfg["opts"]["absL"] if a not in L]
+                    L = L + ([rng.choice(present)] if present and rng.random() < 0.5 else [40])
+                ops.append({"op": "insert_absence", "L": L})
+        # round trip on an absence-free result
+        ops += [{"op": "rebuild"}, {"op": "simulate", "opts": {"absL": []}, "light": True}]
+        ref = len(ops)
+        L = sorted(set(rng.sample(range(0, 8), rng.randint(1, 3))))
+        ops += [{"op": "insert_absence", "L": L}, _cmp({"op": "remove_absence"}, ref, "C18", "lg")]
+        out.append(_hist(cfg, "c18", ops))
+    return out
+
+
+def c16_cases(tier, seed):
+    rng = _random.Random(seed + 16)
+    out = []
+    pool = _pool(tier, seed, ["deps", "placeflat"], 40, 400, dict(), 80, 800)
+    for cfg in pool:
+        k = rng.randint(0, 5)
+        simple = _saved_format_only(cfg)
+        ops = [{"op": "simulate", "light": True},                      # 1 reference
+               {"op": "rebuild", "plain": True}, {"op": "snapshot"}, {"op": "saveload"}]   # never simulated
+        ops += [_cmp({"op": "simulate", "light": True}, 1, "C16", "lg")] if simple else [{"op": "simulate", "light": True}]
+        ops += [{"op": "saveload"}]                                                        # finished forward
+        ops += [{"op": "rebuild", "plain": True}, {"op": "simulate", "opts": {"maxTime": k}, "light": True},
+                {"op": "saveload"}]                                                        # paused
+        ops += [{"op": "rebuild", "plain": True}, {"op": "backward", "light": True}, {"op": "saveload"}]
+        ops += [{"op": "rebuild", "plain": True}, {"op": "simulate", "opts": {"absL": [1, 2]}, "light": True},
+                {"op": "remove_absence"}, {"op": "saveload"}]
+        out.append(_hist(cfg, "c16", ops, plain=True))
+    return out
+
+
+def c10_hist_cases(tier, seed):
+    out = []
+    pool = _pool(tier, seed, ["abs"], 200, 2000, dict(components=False, facilities=False), 100, 1000)
+    rng = _random.Random(seed + 10)
+    for cfg in pool:
+        if any(w["abs"] for w in cfg["workers"]) or any(f["abs"] for f in cfg["facs"]):
+            continue
+        if any(t["auto"] and t["comp"] for t in cfg["tasks"]):
+            continue
+        if any(t["auto"] for t in cfg["tasks"]) and cfg["opts"]["autoAbs"]:
+            continue
+        if cfg["opts"]["rule"] != "TSLACK":
+            continue
+        L = cfg["opts"]["absL"] or sorted(set(rng.sample(range(0, 8), rng.randint(1, 3))))
+        ops = [{"op": "simulate", "opts": {"absL": []}, "light": True}, {"op": "rebuild"},
+               {"op": "simulate", "opts": {"absL": L}, "light": True},
+               _cmp({"op": "remove_absence"}, 1, "C10", "lg-success")]
+        out.append(_hist(cfg, "c10", ops))
+    return out
+
+
+def c08_hist_cases(tier, seed):
+    rng = _random.Random(seed + 8)
+    out = []
+    pool = _pool(tier, seed, ["deps", "placeflat"], 40, 400, dict(), 60, 600)
+    alphabet = ["sim", "sim_light", "init", "pause_resume", "backward", "reverse"]
+    for cfg in pool:
+        ops = []
+        for _ in range(3 if tier == "quick" else 4):
+            a = rng.choice(alphabet)
+            if a == "sim":
+                ops.append({"op": "simulate"})
+            elif a == "sim_light":
+                ops.append({"op": "simulate", "light": True, "opts": {"absL": [1]}})
+            elif a == "init":
+                ops.append({"op": "initialize", "state": rng.random() < 0.7, "log": True})
+            elif a == "pause_resume":
+                ops += [{"op": "simulate", "opts": {"maxTime": rng.randint(0, 6)}, "light": True},
+                        {"op": "simulate", "initState": False, "initLog": False}]
+            elif a == "backward":
+                ops.append({"op": "backward", "due": rng.random() < 0.5, "reverse": rng.random() < 0.5})
+            else:
+                ops.append({"op": "reverse"})
+        if ops[0]["op"] in ("initialize", "reverse"):
+            ops.insert(0, {"op": "simulate", "light": True})
+        out.append(_hist(cfg, "c08", ops))
+    return out
+
+
+PLANS["C09"] = dict(cases=c09_cases, l1=l1(dict(family="deps", invariants=["Inv_C09"])))
+PLANS["C15"] = dict(cases=c15_cases, l1=l1(dict(family="deps", invariants=["Inv_C15"])))
+PLANS["C17"] = dict(cases=c17_cases)
+PLANS["C18"] = dict(cases=c18_cases)
+PLANS["C16"] = dict(cases=c16_cases)
+PLANS["C08"]["cases"] = both(PLANS["C08"]["cases"], c08_hist_cases)
+PLANS["C10"]["cases"] = both(PLANS["C10"]["cases"], c10_hist_cases)
+UNREGISTERED |= set()
